@@ -50,6 +50,35 @@ def RW.reduce (rw : RW) (now : Nat) : List (List Nat) :=
   (List.range (rw.diff now)).map fun i =>
     rw.buckets.getD (((rw.offset + rw.span now + 1) % rw.size + i) % rw.size) []
 
+/-! ### time going backwards (outside the property: `timex.Now()` is assumed non-decreasing)
+
+What the code does when `timex.Since(lastTime)` is negative (`span()`: Go's division truncates towards zero and the
+range check `0 <= offset` fails for a quotient below zero): less than one interval back → span 0, the call behaves as
+in the newest interval; one interval or more back → span = size, so `Reduce` visits nothing and the next `Add` resets
+every bucket and re-aligns `lastTime` on its old grid at or after `now`. -/
+
+def RW.spanB (rw : RW) (now : Nat) : Nat :=
+  if now < rw.lastTime then (if rw.lastTime - now < rw.interval then 0 else rw.size) else rw.span now
+
+def RW.updateOffsetB (rw : RW) (now : Nat) : RW :=
+  if rw.spanB now = 0 then rw
+  else { rw with buckets := RW.resetLoop rw.size rw.offset (rw.spanB now) rw.buckets,
+                 offset := (rw.offset + rw.spanB now) % rw.size,
+                 lastTime := if now < rw.lastTime then now + (rw.lastTime - now) % rw.interval
+                             else now - (now - rw.lastTime) % rw.interval }
+
+def RW.addB (rw : RW) (now v : Nat) : RW :=
+  { rw.updateOffsetB now with
+    buckets := (rw.updateOffsetB now).buckets.set ((rw.updateOffsetB now).offset % rw.size)
+                 ((rw.updateOffsetB now).buckets.getD ((rw.updateOffsetB now).offset % rw.size) [] ++ [v]) }
+
+def RW.diffB (rw : RW) (now : Nat) : Nat :=
+  if rw.spanB now = 0 ∧ rw.ignoreCurrent then rw.size - 1 else rw.size - rw.spanB now
+
+def RW.reduceB (rw : RW) (now : Nat) : List (List Nat) :=
+  (List.range (rw.diffB now)).map fun i =>
+    rw.buckets.getD (((rw.offset + rw.spanB now + 1) % rw.size + i) % rw.size) []
+
 /-- state after a history of additions `(now, v)`, oldest first -/
 def RW.run (rw : RW) (evs : List (Nat × Nat)) : RW := evs.foldl (fun r e => r.add e.1 e.2) rw
 
